@@ -777,7 +777,7 @@ class Case:
                  ("DataArray.metadata", lambda: b.data_arrays["b"], "metadata", secs, True),
                  ("Tag.metadata", lambda: b.tags["t2"], "metadata", secs, True),
                  ("Block.metadata", lambda: self.block(f), "metadata", secs, True),
-                 ("Section.link", lambda: f.sections["same"].sections["child"], "link", secs[:2], False)]
+                 ("Section.link", lambda: f.sections["same"].sections["child"], "link", secs[:2], True)]
         try:
             if not len(b.tags["same"].features):
                 b.tags["same"].create_feature(arrs[0], nix.LinkType.Untagged)
